@@ -274,6 +274,55 @@ const BAD_CALLS: [(&str, &str, Kind); 9] = [
     ("MID$(1, 1)", "ArgumentTypeMismatch", Kind::Str),
 ];
 
+/// Two calls of the same subprogram in a row: a valid one, then an invalid one whose arguments have the same
+/// static types (by value a LONG expression may be passed for an INTEGER parameter, by reference a LONG variable
+/// may not), and the other way round. The invalid call must be rejected wherever it stands.
+const CALL_PAIRS: [(&str, &str, &str); 10] = [
+    ("PI (L&)", "PI L&", "ArgumentTypeMismatch"),
+    ("PI 5 + L&", "PI L&", "ArgumentTypeMismatch"),
+    ("PI 7", "PI L&", "ArgumentTypeMismatch"),
+    ("PI (D#)", "PI D#", "ArgumentTypeMismatch"),
+    ("PS (T$)", "PS I%", "ArgumentTypeMismatch"),
+    ("Q% = FI%((L&))", "Q% = FI%(L&)", "ArgumentTypeMismatch"),
+    ("Q% = FI%(1)", "Q% = FI%(1, 2)", "ArgumentCountMismatch"),
+    ("PI2 I%, (L&)", "PI2 I%, L&", "ArgumentTypeMismatch"),
+    ("PI2 I%, (L&)", "PI2 L&, (L&)", "ArgumentTypeMismatch"),
+    ("PI 1", "PI 1, 2", "ArgumentCountMismatch"),
+];
+
+fn call_pair_case(pair: usize, order: usize, acc: &mut Acc, replay: Value) {
+    let (good, bad, family) = CALL_PAIRS[pair];
+    // order 0: good, bad; 1: bad, good; 2: good, good, bad; 3: only the good ones (must be accepted)
+    let lines: Vec<&str> = match order {
+        0 => vec![good, bad],
+        1 => vec![bad, good],
+        2 => vec![good, good, bad],
+        _ => vec![good, good],
+    };
+    let bad_row = lines.iter().position(|l| *l == bad).map(|i| PRELUDE.matches('\n').count() as u32 + 1 + i as u32);
+    let text = format!("{}{}\n{}", PRELUDE, lines.join("\n"), EPILOGUE);
+    let o = run_pipeline(&text, &RunOpts { budget: 200_000, ..RunOpts::default() });
+    match (bad_row, lint_kind(&o.end)) {
+        (Some(row), Some((k, r))) => {
+            if k != family && !(family == "ArgumentTypeMismatch" && k == "TypeMismatch") {
+                acc.bad(format!("C12|call-pairs|{}|rejected-with-{}", family, k), format!("`{}` after `{}`: rejected with {}, expected {}", bad, good, k, family), text, replay);
+            } else if r != row {
+                acc.bad(format!("C12|call-pairs|{}|row", family), format!("`{}` is on row {}, the error says row {}", bad, row, r), text, replay);
+            } else {
+                acc.hit("call-pairs:rejected");
+            }
+        }
+        (Some(_), None) => acc.bad(
+            format!("C12|call-pairs|{}|accepted|order{}", family, order),
+            format!("the ill-formed call `{}` is accepted when the valid call `{}` stands {} it (run: {})", bad, good, if order == 1 { "after" } else { "before" }, o.end.class()),
+            text,
+            replay,
+        ),
+        (None, Some((k, _))) => acc.bad(format!("C12|call-pairs|valid-rejected|{}", k), format!("the valid calls `{}` are rejected with {}", good, k), text, replay),
+        (None, None) => acc.hit("call-pairs:valid accepted"),
+    }
+}
+
 fn call_case(ctx: usize, call: usize, wrap: usize, acc: &mut Acc, replay: Value) {
     let (cname, tpl, line_idx, need) = CONTEXTS[ctx];
     let (ctext, family, kind) = BAD_CALLS[call];
@@ -674,6 +723,14 @@ pub fn worker(case: &Value) -> Value {
                 typed_case(ctx, text, *kind, &mut acc, json!({"g": g, "nops": genr.nops, "lo": idx, "hi": idx + 1}));
             }
         }
+        "call-pairs" => {
+            for pair in 0..CALL_PAIRS.len() {
+                for order in 0..4 {
+                    n += 1;
+                    call_pair_case(pair, order, &mut acc, json!({"g": g}));
+                }
+            }
+        }
         "calls" => {
             for idx in case["lo"].as_u64().unwrap_or(0)..case["hi"].as_u64().unwrap_or(0) {
                 let ctx = (idx % CONTEXTS.len() as u64) as usize;
@@ -798,6 +855,7 @@ pub fn drive(tier: &str) -> i32 {
         cases.push(json!({"g": "calls", "lo": lo, "hi": (lo + 120).min(ctotal)}));
         lo += 120;
     }
+    cases.push(json!({"g": "call-pairs"}));
     let total_cases = cases.len();
     let cap = run.wall_cap_s;
     let t0 = run.reporter.start;
@@ -826,7 +884,7 @@ pub fn drive(tier: &str) -> i32 {
     }
     groups.push(super::run_text_group(&mut run, &pool, "statement templates x operand menu: soundness, renaming", &stmts, 40, &extra));
     let mut ev = Evidence::new("exploration");
-    ev.set("rule", "typed: every operand, unary and binary expression (13 operators) over 10 (thorough 18) operands of all kinds (a whole record, literals, variables of every numeric type, strings, fixed-length strings as variable / array element / record member, array elements, user FUNCTION results, built-in results) in 66 syntactic positions (the 23 core positions with all 13 binary operators, the others with + < AND MOD) (assignments to every kind of target, PRINT list, parentheses, IF / WHILE / DO conditions, SELECT subject, CASE lists, FOR start / limit / step, array subscripts and bounds, the subscript of an array-of-records element read and assigned through a field, by-value SUB arguments, FUNCTION arguments inside a subscript, built-in arguments, ELSEIF / single-line IF / DO conditions, CASE IS and both ends of a CASE range, PRINT USING / LPRINT lists, REDIM and lower bounds, second and nested subscripts, subscripts of READ / INPUT / INPUT # / LINE INPUT targets and of a FOR counter, the arguments of the file statements (OPEN name and LEN, FIELD width, LSET value, GET / PUT record number, KILL, NAME) and of LOCATE / COLOR / VIEW PRINT / DEF SEG / POKE / PEEK / ENVIRON): a kind model (numeric / string / ill-kinded) decides which programs must be rejected with a type error in the statement that holds the expression; accepted programs are executed and must not raise Type mismatch (13) nor panic. calls: 9 ill-formed calls of user-defined and built-in functions (argument count, argument type, by-reference type) bare, in parentheses, as an operand, inside a subscript and as an argument, in each of the 66 positions: rejected with the matching error at the statement's row. corpus: every harvested text, generated control program and statement template is run (soundness oracle outside READ / INPUT / PRINT USING statements), renamed consistently in three ways (every user-chosen word component gets a suffix, first letter and type suffix kept — twice; every first letter replaced by the next letter that has the same default type under the program's DEFtype statements): same verdict and output; every accepted one is edited once at every applicable site (numeric literal next to * or / -> string literal, GOTO / GOSUB target -> missing label, NEXT counter -> another name, label line / DIM line duplicated, one more argument in a SUB call): rejected, and where the error is of the edit's family it is located at the edited row.");
+    ev.set("rule", "typed: every operand, unary and binary expression (13 operators) over 10 (thorough 18) operands of all kinds (a whole record, literals, variables of every numeric type, strings, fixed-length strings as variable / array element / record member, array elements, user FUNCTION results, built-in results) in 66 syntactic positions (the 23 core positions with all 13 binary operators, the others with + < AND MOD) (assignments to every kind of target, PRINT list, parentheses, IF / WHILE / DO conditions, SELECT subject, CASE lists, FOR start / limit / step, array subscripts and bounds, the subscript of an array-of-records element read and assigned through a field, by-value SUB arguments, FUNCTION arguments inside a subscript, built-in arguments, ELSEIF / single-line IF / DO conditions, CASE IS and both ends of a CASE range, PRINT USING / LPRINT lists, REDIM and lower bounds, second and nested subscripts, subscripts of READ / INPUT / INPUT # / LINE INPUT targets and of a FOR counter, the arguments of the file statements (OPEN name and LEN, FIELD width, LSET value, GET / PUT record number, KILL, NAME) and of LOCATE / COLOR / VIEW PRINT / DEF SEG / POKE / PEEK / ENVIRON): a kind model (numeric / string / ill-kinded) decides which programs must be rejected with a type error in the statement that holds the expression; accepted programs are executed and must not raise Type mismatch (13) nor panic. calls: 9 ill-formed calls of user-defined and built-in functions (argument count, argument type, by-reference type) bare, in parentheses, as an operand, inside a subscript and as an argument, in each of the 66 positions: rejected with the matching error at the statement's row. call-pairs: 10 pairs (a valid call, an ill-formed call of the same subprogram whose arguments have the same static types) in the orders valid-invalid, invalid-valid, valid-valid-invalid: the ill-formed call is rejected at its row whatever precedes it. corpus: every harvested text, generated control program and statement template is run (soundness oracle outside READ / INPUT / PRINT USING statements), renamed consistently in three ways (every user-chosen word component gets a suffix, first letter and type suffix kept — twice; every first letter replaced by the next letter that has the same default type under the program's DEFtype statements): same verdict and output; every accepted one is edited once at every applicable site (numeric literal next to * or / -> string literal, GOTO / GOSUB target -> missing label, NEXT counter -> another name, label line / DIM line duplicated, one more argument in a SUB call): rejected, and where the error is of the edit's family it is located at the edited row.");
     ev.set("exhaustive", !run.capped);
     ev.set("groups", json!(groups));
     ev.set("plan", json!({"typed_expressions": nexpr, "positions": CONTEXTS.len(), "ill_formed_calls": ctotal}));
